@@ -14,7 +14,7 @@ func init() {
 	register(&Check{
 		ID:    "C20",
 		Level: "exploration",
-		Rule: "(1) one real directory holding a regular file for EVERY name of <= 4 (thorough 5) chars over {a,b,.} (except . and ..) and two sub-directories whose names also match, x EVERY pattern of <= 5 (thorough 6) chars over {a,b,.,*} with at most 3 stars; (1b) one real directory holding a file for every name of <= 3 chars over {a,1,[,],?,backslash,-,^} x every pattern of <= 4 chars over these and `*` (every character but the star is literal); (1c) a directory with symbolic links to a directory (relative and absolute), to a nested directory, to a regular file and to nothing x 8 file segments x 11 directory segments at depth 1-3, relative and absolute: a link counts as what it points to; (2) a real tree of depth 3 whose directory and file names range over {a,b,ab,ba} x every pattern of 1-3 segments over directory segments {a,b,ab,a*,*b,*a*,b*} and file segments {a,b,ab,a*,*b,a*b,*a*,*,**}, relative and absolute; " +
+		Rule: "(1) one real directory holding a regular file for EVERY name of <= 4 (thorough 5) chars over {a,b,.} (except . and ..) and two sub-directories whose names also match, x EVERY pattern of <= 5 (thorough 6) chars over {a,b,.,*} with at most 3 stars; (1b) one real directory holding a file for every name of <= 3 chars over {a,1,[,],?,backslash,-,^} x every pattern of <= 4 chars over these and `*` (every character but the star is literal); (1c) a directory with symbolic links to a directory (relative and absolute), to a nested directory, to a regular file and to nothing x 8 file segments x 11 directory segments at depth 1-3, relative and absolute: a link counts as what it points to; (1d) directories with every number of entries 0..300 (thorough 600) and around 512, 768, 1024 on the pattern's route x 7 patterns; (2) a real tree of depth 3 whose directory and file names range over {a,b,ab,ba} x every pattern of 1-3 segments over directory segments {a,b,ab,a*,*b,*a*,b*} and file segments {a,b,ab,a*,*b,a*b,*a*,*,**}, relative and absolute; " +
 			"oracle: a reference matcher (`*` = any run within a segment, segments matched one to one) applied to a walk of the tree; the returned list must equal it as a set, without duplicates and without directories; non-trivial = distinct (pattern,tree) pairs whose expected set is non-empty and not everything",
 		Assume: []string{"directory segments made only of stars and `.`/`..` segments are excluded, as the property says"},
 		Budget: map[string]int{"quick": 120, "thorough": 900},
@@ -249,6 +249,42 @@ func runC20(c *Ctx) {
 				c20Compare(c, links, pat, false, lall, "links")
 				c20Compare(c, links, pat, true, lall, "links")
 			}
+		}
+	}
+	// (1d) directory sizes: a directory on the pattern's route, and the directory holding the files, with
+	// every number of entries 0..300 and around 512, 768, 1024 (directories are read in chunks)
+	if c.Level("directory sizes") {
+		sizes := filepath.Join(root, "sizes")
+		os.Mkdir(sizes, 0o755)
+		var ns []int
+		for n := 0; n <= c.Pick(300, 600); n++ {
+			ns = append(ns, n)
+		}
+		ns = append(ns, 511, 512, 513, 767, 768, 769, 1023, 1024, 1025)
+		for _, n := range ns {
+			n := n
+			if !c.Unit(func() string { return fmt.Sprintf("sizes: a directory with %d entries", n) }) {
+				continue
+			}
+			d := filepath.Join(sizes, fmt.Sprintf("n%d", n))
+			os.MkdirAll(filepath.Join(d, "logs"), 0o755)
+			var want []string
+			// n entries in logs/: one sub-directory (if n >= 1) and n-1 files
+			if n >= 1 {
+				os.Mkdir(filepath.Join(d, "logs", "sub"), 0o755)
+				os.WriteFile(filepath.Join(d, "logs", "sub", "inner.txt"), []byte("x"), 0o644)
+				want = append(want, "logs/sub/inner.txt")
+			}
+			for i := 0; i < n-1; i++ {
+				name := fmt.Sprintf("f%04d.txt", i)
+				os.WriteFile(filepath.Join(d, "logs", name), []byte("x"), 0o644)
+				want = append(want, "logs/"+name)
+			}
+			sort.Strings(want)
+			for _, pat := range []string{"logs/*.txt", "logs/f*", "l*/*.txt", "logs/sub/inner.txt", "logs/s*/*.txt", "l*s/s*b/*", "logs/f0000.txt"} {
+				c20Compare(c, d, pat, false, want, "sizes")
+			}
+			os.RemoveAll(d)
 		}
 	}
 	// (2) tree
